@@ -411,7 +411,7 @@ func (b *BlockList) Exists(key string) bool {
 	// covers subdomains only.
 	offset := 0
 	for {
-		idx := strings.IndexByte(key[offset:], '.')
+		idx := indexLabelEnd(key[offset:])
 		if idx == -1 {
 			break
 		}
@@ -428,6 +428,23 @@ func (b *BlockList) Exists(key string) bool {
 	return false
 }
 
+// indexLabelEnd returns the index of the dot that ends the first label of
+// name, or -1. In presentation format a backslash escapes the character
+// after it, so the dot in `x\.example.com.` belongs to the label "x.example"
+// and is not a label boundary: that name is a child of com., not of
+// example.com.
+func indexLabelEnd(name string) int {
+	for i := 0; i < len(name); i++ {
+		switch name[i] {
+		case '\\':
+			i++
+		case '.':
+			return i
+		}
+	}
+	return -1
+}
+
 // matchHierarchy reports whether name or any of its parent suffixes is a
 // key in m. Names are expected in canonical (lowercase, trailing-dot) form.
 func matchHierarchy(name string, m map[string]bool) bool {
@@ -439,7 +456,7 @@ func matchHierarchy(name string, m map[string]bool) bool {
 	}
 	offset := 0
 	for {
-		idx := strings.IndexByte(name[offset:], '.')
+		idx := indexLabelEnd(name[offset:])
 		if idx == -1 {
 			return false
 		}
